@@ -805,7 +805,11 @@ func (c *Ctx) c02Read() {
 	okPT = okPT && nPT > 0
 	r.Check(okPT, "C02/READ/source", "StoreManager.SourceReader", p.Pos(smSrc.Pos()), "returns the store message's Source() unchanged", "StoreManager.SourceReader does not pass Source() through")
 	n := 0
-	for _, H := range c.webHandlers() {
+	// every function of the handler packages that asks the Manager for a source reader (the
+	// registered handler itself, or an action function it runs through a function value)
+	srcUsers := append(pkgFuncs(p, "pkg/rest"), pkgFuncs(p, "pkg/webui")...)
+	sortFuncs(srcUsers)
+	for _, H := range srcUsers {
 		H := H
 		eng.EachInstr(H, func(in ssa.Instruction) {
 			call, ok := in.(*ssa.Call)
